@@ -1,0 +1,13 @@
+//go:build verif
+
+package frame
+
+// SetFastPathFrameSizeForVerif replaces the threshold below which Reader.Read
+// pre-allocates the frame buffer and returns the previous value. It exists only
+// under the `verif` build tag so that the verification harness can exercise the
+// io.CopyN path with small frames. Not safe for concurrent use with Read.
+func SetFastPathFrameSizeForVerif(n int64) int64 {
+	old := _fastPathFrameSize
+	_fastPathFrameSize = n
+	return old
+}
